@@ -136,7 +136,7 @@ class Run:
         ok = tlc_ok(out)
         if expect_violation:
             # negative control: the model of the defective variant MUST be rejected by TLC
-            ok = ("Temporal properties were violated" in out) or ("is violated" in out)
+            ok = bool(re.search(r"Temporal propert(y|ies) .*violated|Invariant \S+ is violated", out))
         self.mc.append({"module": module, "cfg": cfg or module + ".cfg", "ok": ok, "generated": gen,
                         "distinct": dist, "wall_s": round(time.time() - t, 1),
                         "negative_control": bool(expect_violation)})
